@@ -1028,6 +1028,12 @@ func (r *poolRun) busyFront(a string) {
 			break
 		}
 	}
+	if len(r.held) > 0 && (r.prop == "C13" || r.e.Rng.Intn(2) == 0) {
+		// CloseIdleConnections while a parked connection carries a call: it is spared and stays in the pool
+		r.closeIdle()
+		r.call(a, false)
+		r.call(a, false)
+	}
 	r.backdate(60) // now past IdleConnTimeout for the parked ones, past KeepAlive for whatever stayed active
 	r.tick()
 	for k, h := range r.held {
